@@ -152,7 +152,8 @@ def tasks(tier):
     # order: one arbitrary preemption plus one at a lock-file operation
     # (the schedules below the first-level deviations are spread over the
     # workers; the root itself is covered by the bound-1 task above)
-    for pr in (('MOVE1', 'MOVE-from-a'), ('MOVE1:2', 'MOVE-from-a')):
+    for pr in ((('MOVE1', 'MOVE-from-a'),) if tier == 'quick' else
+               (('MOVE1', 'MOVE-from-a'), ('MOVE1:2', 'MOVE-from-a'))):
         for chunk in mt.split_prefixes('++', pr, PROGRAMS, 1, 1):
             T.append(('++', pr, 1, None, 1, chunk))
     if tier != 'quick':
